@@ -228,7 +228,7 @@ def dominates_all_exits(ctx, rule, f: Func, pattern, instance, exits=("return",)
         k0 = kind.split(":")[0]
         if kind in exits or k0 in exits:
             if st == 0:
-                return f"`{pattern}` does not occur on a path to {kind}"
+                return f"`{pattern if isinstance(pattern, str) else instance}` does not occur on a path to {kind}"
             if count is not None and st != count:
                 return f"`{pattern}` occurs {st} times on a path to {kind} (expected {count})"
         return None
